@@ -31,6 +31,7 @@ import (
 	"go/types"
 	"os"
 	"path/filepath"
+	"regexp"
 	"sort"
 	"strings"
 
@@ -68,6 +69,12 @@ type Config struct {
 	// fields confined to ONE object instance that is served by ONE goroutine (glob of the bg role
 	// -> reason is in reasons): type-level identity merges the instances
 	InstanceConfined map[string]string `json:"instance_confined_fields"` // field -> bg role that owns it
+	// library types whose methods mutate the receiver without synchronisation (*rand.Rand,
+	// bytes.Buffer ...): a method call on a field / package-level variable of such a type is a WRITE
+	NonThreadSafe []string `json:"non_thread_safe_types"` // "import/path.Type"
+	// fields written only while the engine is being built (role load) and read by background
+	// goroutines that the loader itself starts afterwards (field -> reason); see spawnedByLoaderProblem
+	SpawnedByLoader map[string]string `json:"spawned_by_loader_fields"`
 }
 
 type Access struct {
@@ -80,6 +87,8 @@ type Access struct {
 	Line   int      `json:"line"`
 	Roles  []string `json:"roles"`
 	Recv   bool     `json:"via_receiver,omitempty"` // the access goes through the method's own receiver
+	pos    token.Pos
+	node   *fnode
 }
 
 type fnode struct {
@@ -97,31 +106,36 @@ type fnode struct {
 	roles        map[string]bool
 	exclusive    bool
 	escaped      []*Access
-	acquires     []string // lock acquisitions written in this body (in source order)
-	inherit      []string // for non-go literals: local locks held where the literal is written
-	loop0        int      // for literals: loop depth of the place where the literal is written
-	ownedRecv    bool     // method only ever called on objects under construction (owned.go)
-	byIface      bool     // some call reaches it through an interface
-	tableEntry   bool     // role given by the entry table
-	own          *ownInfo // ownership of fresh local objects (owned.go)
-	offRecv      bool     // some access does not go through the method's receiver
-	recvConfined bool     // every access, also of callees, goes through the receiver
-	ownedDropped int      // accesses dropped because the object was still owned
-	dead         bool     // matches dead_functions: no production caller, accesses dropped
-	defaulted    bool     // no entry point reaches it: got the default role
+	acquires     []string             // lock acquisitions written in this body (in source order)
+	inherit      []string             // for non-go literals: local locks held where the literal is written
+	loop0        int                  // for literals: loop depth of the place where the literal is written
+	ownedRecv    bool                 // method only ever called on objects under construction (owned.go)
+	byIface      bool                 // some call reaches it through an interface
+	tableEntry   bool                 // role given by the entry table
+	own          *ownInfo             // ownership of fresh local objects (owned.go)
+	offRecv      bool                 // some access does not go through the method's receiver
+	recvConfined bool                 // every access, also of callees, goes through the receiver
+	ownedDropped int                  // accesses dropped because the object was still owned
+	dead         bool                 // matches dead_functions: no production caller, accesses dropped
+	defaulted    bool                 // no entry point reaches it: got the default role
+	pkgVars      []string             // package-level variables the body mentions (pseudo-fields "pkg.(var).name")
+	onceLit      bool                 // function literal handed to (*sync.Once).Do
+	onceDo       []token.Pos          // positions of once.Do(...) calls written in this body
+	recvFresh    map[string]token.Pos // receiver field (id) -> position of `recv.f = <fresh object>` (owned.go)
 }
 
 type callSite struct {
-	callee  *fnode
-	locks   []string
-	isGo    bool
-	inLoop  bool         // the call is written inside a for / range body of its function
-	goFresh bool         // `go v.m()` where v is a fresh object the spawner owned up to this statement
-	pos     token.Pos    // position of the call
-	recvVar *types.Var   // x of x.m(...) when x is a plain variable
-	argVars []*types.Var // arguments that are plain variables
-	owned   bool         // method call on an object the caller still owns (owned.go)
-	onRecv  bool         // method call on (a struct value inside) the caller's own receiver
+	callee        *fnode
+	locks         []string
+	isGo          bool
+	inLoop        bool         // the call is written inside a for / range body of its function
+	goFresh       bool         // `go v.m()` where v is a fresh object the spawner owned up to this statement
+	pos           token.Pos    // position of the call
+	recvVar       *types.Var   // x of x.m(...) when x is a plain variable
+	argVars       []*types.Var // arguments that are plain variables
+	owned         bool         // method call on an object the caller still owns (owned.go)
+	viaFreshField string       // method call on recv.f where f was given a fresh object earlier in this body (field id)
+	onRecv        bool         // method call on (a struct value inside) the caller's own receiver
 }
 
 var (
@@ -205,6 +219,7 @@ func main() {
 	// pass 1b: which functions return an object they have just allocated (owned.go);
 	// two rounds so that a constructor built on another constructor is recognised
 	computeLeaks()
+	computeReturnsRecv()
 	fresh := map[*fnode]bool{}
 	freshFns = fresh
 	freshCall = func(info *types.Info, c *ast.CallExpr) bool {
@@ -242,6 +257,8 @@ func main() {
 			}
 		}
 	}
+	// pass 1c: which results / fields share the backing store of which container field (alias.go)
+	computeAliases()
 	// pass 2: bodies
 	for _, n := range sortedNodes() {
 		if _, ok := n.decl.(*ast.FuncDecl); ok {
@@ -565,6 +582,70 @@ func fieldID(info *types.Info, sel *ast.SelectorExpr) (string, *types.Var, bool)
 	return shortPkg(owner.Obj().Pkg().Path()) + "." + owner.Obj().Name() + "." + v.Name(), v, true
 }
 
+// Package-level variables of the analysed packages are the fields of one pseudo-object per
+// package: "pkg.(var).name". A use is a read; an assignment, an element store, `&v`, v++ or a
+// method call on a variable of a non-thread-safe library type is a write.
+const pkgVarType = "(var)"
+
+func pkgVarOf(info *types.Info, e ast.Expr) (string, *types.Var, bool) {
+	var obj types.Object
+	switch x := e.(type) {
+	case *ast.Ident:
+		obj = info.Uses[x]
+	case *ast.SelectorExpr: // pkg.Var
+		if id, ok := x.X.(*ast.Ident); ok {
+			if _, isPkg := info.Uses[id].(*types.PkgName); isPkg {
+				obj = info.Uses[x.Sel]
+			}
+		}
+	}
+	v, ok := obj.(*types.Var)
+	if !ok || v.Pkg() == nil || v.IsField() || v.Parent() != v.Pkg().Scope() || !targets[v.Pkg().Path()] {
+		return "", nil, false
+	}
+	return shortPkg(v.Pkg().Path()) + "." + pkgVarType + "." + v.Name(), v, true
+}
+
+// rootPlace: the package-level variable (as the expression that names it) whose own memory an
+// assignment to e modifies: v, v[k], v[i:j], v.f.g with struct VALUES on the way; nil otherwise.
+func rootPlace(info *types.Info, e ast.Expr) ast.Expr {
+	for {
+		if _, _, ok := pkgVarOf(info, e); ok {
+			return e
+		}
+		switch x := e.(type) {
+		case *ast.ParenExpr:
+			e = x.X
+		case *ast.IndexExpr:
+			e = x.X
+		case *ast.SliceExpr:
+			e = x.X
+		case *ast.SelectorExpr:
+			tv, ok := info.Types[x.X]
+			if !ok || !isStructValue(tv.Type) {
+				return nil
+			}
+			e = x.X
+		default:
+			return nil
+		}
+	}
+}
+
+func isNonThreadSafe(t types.Type) bool {
+	n := namedOf(t)
+	if n == nil || n.Obj().Pkg() == nil {
+		return false
+	}
+	id := n.Obj().Pkg().Path() + "." + n.Obj().Name()
+	for _, x := range cfg.NonThreadSafe {
+		if x == id {
+			return true
+		}
+	}
+	return false
+}
+
 func analysedStruct(t types.Type) bool {
 	n, ok := t.(*types.Named)
 	if !ok || n.Obj().Pkg() == nil || !targets[n.Obj().Pkg().Path()] {
@@ -636,6 +717,7 @@ func analyse(n *fnode) {
 	w := &walker{n: n, info: n.pkg.TypesInfo, loop: n.loop0, held: map[string]int{}, write: map[ast.Expr]bool{}, atom: map[ast.Expr]bool{}, noCopy: map[ast.Expr]bool{}, elem: map[ast.Expr]bool{}}
 	n.locksAt = map[*Access][]string{}
 	n.own = computeOwnership(n)
+	n.recvFresh = receiverFreshFields(n)
 	w.block(n.body)
 }
 
@@ -692,6 +774,12 @@ func (w *walker) stmt(s ast.Stmt) {
 			if sel := baseSel(l); sel != nil {
 				w.markWrite(sel)
 			}
+			if rp := rootPlace(w.info, l); rp != nil {
+				w.write[rp] = true
+			}
+			if b := elementBase(l); b != nil {
+				w.writeThroughExpr(b, l.Pos(), false) // x[i] = v with x sharing a field's backing store (alias.go)
+			}
 		}
 		for _, r := range x.Rhs {
 			w.expr(r)
@@ -704,6 +792,12 @@ func (w *walker) stmt(s ast.Stmt) {
 	case *ast.IncDecStmt:
 		if sel := baseSel(x.X); sel != nil {
 			w.markWrite(sel)
+		}
+		if rp := rootPlace(w.info, x.X); rp != nil {
+			w.write[rp] = true
+		}
+		if b := elementBase(x.X); b != nil {
+			w.writeThroughExpr(b, x.Pos(), false)
 		}
 		w.expr(x.X)
 	case *ast.DeferStmt:
@@ -863,28 +957,30 @@ func stmtEnds(s ast.Stmt) bool {
 	return false
 }
 
-// escape: `return x.f` of a map / slice typed field while a lock is held hands
-// the caller a reference it will use AFTER the critical section; recorded as an
-// additional read of the field with no lock held.
+// escape: `return x.f` of a map / slice typed field - or of anything that may share such a
+// field's backing store: x.f[a:b], a local variable / parameter / call result that does (alias.go)
+// - hands the caller a reference it will use AFTER this function and outside its critical
+// sections; recorded as an additional read of the field with no lock held ("reference escapes").
+// (A plain `return x.f` with no lock held already has exactly that fact.)
 func (w *walker) escape(e ast.Expr) {
-	sel, ok := e.(*ast.SelectorExpr)
-	if !ok || len(w.heldList()) == 0 {
+	srcs, direct := w.fieldSources(e)
+	if len(srcs) == 0 {
 		return
 	}
-	id, v, ok := fieldID(w.info, sel)
-	if !ok {
-		return
+	held := len(w.heldList()) > 0
+	done := map[string]bool{}
+	for _, t := range srcs {
+		f := t[2:]
+		if (f == direct && !held) || done[f] {
+			continue
+		}
+		done[f] = true
+		what := "reference escapes the owner via return"
+		if held {
+			what = "reference escapes the lock via return"
+		}
+		w.aliasAccess(f, false, e.Pos(), what, true)
 	}
-	switch v.Type().Underlying().(type) {
-	case *types.Map, *types.Slice:
-	default:
-		return
-	}
-	pos := fset.Position(sel.Sel.Pos())
-	a := &Access{Field: id, Write: false, Func: w.n.id + " (reference escapes the lock via return)", File: pos.Filename, Line: pos.Line}
-	w.n.accesses = append(w.n.accesses, a)
-	w.n.locksAt[a] = nil
-	w.n.escaped = append(w.n.escaped, a)
 }
 
 // ifTryLock recognises `if !m.TryLock() { ...; return }` (no else): after the
@@ -919,7 +1015,13 @@ func (w *walker) expr(e ast.Expr) {
 	case nil:
 	case *ast.CallExpr:
 		w.call(x, false, false)
+	case *ast.Ident:
+		w.pkgVar(x)
 	case *ast.SelectorExpr:
+		if _, _, isVar := pkgVarOf(w.info, x); isVar {
+			w.pkgVar(x)
+			break
+		}
 		w.noCopy[x.X] = true
 		w.expr(x.X)
 		if !w.noCopy[x] {
@@ -931,7 +1033,7 @@ func (w *walker) expr(e ast.Expr) {
 				// (the ELEMENTS of a map / slice held in a field of an owned object are not
 				// covered: a struct copy shares them with its original, a constructor may have
 				// been handed them)
-				if _, owned := w.n.own.ownedObject(w.info, x.X, x.Pos()); owned && !w.elem[x] {
+				if root, owned := w.n.own.ownedObject(w.info, x.X, x.Pos()); owned && (!w.elem[x] || w.n.own.freshContainer(w.info, root, x)) {
 					w.n.ownedDropped++
 					break // goroutine-private memory (owned.go)
 				}
@@ -945,7 +1047,7 @@ func (w *walker) expr(e ast.Expr) {
 			}
 			pos := fset.Position(x.Sel.Pos())
 			a := &Access{Field: id, Write: w.write[x], Atomic: w.atom[x], Func: w.n.id,
-				File: pos.Filename, Line: pos.Line, Recv: viaRecv}
+				File: pos.Filename, Line: pos.Line, Recv: viaRecv, pos: x.Pos(), node: w.n}
 			w.n.accesses = append(w.n.accesses, a)
 			w.n.locksAt[a] = w.heldList()
 		}
@@ -958,6 +1060,11 @@ func (w *walker) expr(e ast.Expr) {
 				// one of ITS fields, which has its own facts
 				if _, fv, ok := fieldID(w.info, sel); !(ok && sel == x.X && analysedStruct(fv.Type())) {
 					w.write[sel] = true
+				}
+			}
+			if rp := rootPlace(w.info, x.X); rp != nil && !w.atom[rp] {
+				if _, pv, _ := pkgVarOf(w.info, rp); !(rp == x.X && analysedStruct(pv.Type())) {
+					w.write[rp] = true // the address of (a part of) the variable escapes
 				}
 			}
 		}
@@ -1000,6 +1107,31 @@ func (w *walker) expr(e ast.Expr) {
 	case *ast.FuncLit:
 		w.funcLit(x, false)
 	}
+}
+
+// pkgVar records a use of a package-level variable of an analysed package (see pkgVarOf)
+func (w *walker) pkgVar(e ast.Expr) {
+	id, v, ok := pkgVarOf(w.info, e)
+	if !ok || isSyncType(v.Type()) {
+		return
+	}
+	if !w.noCopy[e] {
+		w.structCopy2(e)
+	}
+	pos := fset.Position(e.Pos())
+	a := &Access{Field: id, Write: w.write[e], Atomic: w.atom[e], Func: w.n.id, File: pos.Filename, Line: pos.Line, pos: e.Pos(), node: w.n}
+	w.n.accesses = append(w.n.accesses, a)
+	w.n.locksAt[a] = w.heldList()
+	w.n.pkgVars = append(w.n.pkgVars, id) // (breaks receiver-confinement only if somebody writes the variable: computeRecvConfined)
+}
+
+// structCopy2: a package-level variable of an analysed struct VALUE type used as a value
+func (w *walker) structCopy2(e ast.Expr) {
+	tv, ok := w.info.Types[e]
+	if !ok || !tv.IsValue() {
+		return
+	}
+	w.copyFields(tv.Type, false, e.Pos(), 0)
 }
 
 // markWrite: `x.f.g = v` modifies the memory of x.f as well when f is a struct
@@ -1179,6 +1311,9 @@ func (w *walker) call(c *ast.CallExpr, isDefer, isGo bool) {
 						if s := baseSel(u.X); s != nil {
 							w.atom[s] = true
 						}
+						if rp := rootPlace(w.info, u.X); rp != nil {
+							w.atom[rp] = true
+						}
 					}
 				}
 			}
@@ -1198,12 +1333,27 @@ func (w *walker) call(c *ast.CallExpr, isDefer, isGo bool) {
 			if s := baseSel(c.Args[0]); s != nil {
 				w.write[s] = true
 			}
+			if rp := rootPlace(w.info, c.Args[0]); rp != nil {
+				w.write[rp] = true
+			}
+		}
+	}
+	w.aliasCall(c) // writes through a value that shares a field's backing store (alias.go)
+	// once.Do(func() {...}): the literal runs at most once per Once, before any Do returns
+	isOnceDo := false
+	if sel, ok := c.Fun.(*ast.SelectorExpr); ok && sel.Sel.Name == "Do" {
+		if tv, ok := w.info.Types[sel.X]; ok {
+			if n := namedOf(tv.Type); n != nil && n.Obj().Pkg() != nil && n.Obj().Pkg().Path() == "sync" && n.Obj().Name() == "Once" {
+				isOnceDo = true
+				w.n.onceDo = append(w.n.onceDo, c.Pos())
+			}
 		}
 	}
 	// arguments first (they are evaluated in the caller, also for go/defer)
 	for _, a := range c.Args {
 		if fl, ok := a.(*ast.FuncLit); ok {
-			w.funcLit(fl, false)
+			ln := w.funcLit(fl, false)
+			ln.onceLit = isOnceDo
 			continue
 		}
 		w.expr(a)
@@ -1222,6 +1372,15 @@ func (w *walker) call(c *ast.CallExpr, isDefer, isGo bool) {
 					valueRecv = !isPtr && !isIface
 				}
 			}
+			if tv, ok := w.info.Types[f.X]; ok && isNonThreadSafe(tv.Type) {
+				// rand.Rand, bytes.Buffer ...: every method may mutate the receiver, none synchronises
+				if sel := baseSel(f.X); sel != nil {
+					w.write[sel] = true
+				}
+				if rp := rootPlace(w.info, f.X); rp != nil {
+					w.write[rp] = true
+				}
+			}
 			if !valueRecv {
 				w.noCopy[f.X] = true // x.m() with a pointer receiver takes &x
 				w.expr(f.X)
@@ -1238,11 +1397,20 @@ func (w *walker) call(c *ast.CallExpr, isDefer, isGo bool) {
 		}
 	}
 	owned, onRecv, goFresh := false, false, false
+	viaFresh := ""
 	if sel, ok := c.Fun.(*ast.SelectorExpr); ok && !isDefer {
 		if s := w.info.Selections[sel]; s != nil && s.Kind() == types.MethodVal && selHopsOK(s) {
 			if !isGo {
 				_, owned = w.n.own.ownedObject(w.info, sel.X, c.Pos())
 				onRecv = w.n.own.receiverRooted(w.info, sel.X)
+				// recv.f.m() after `recv.f = <fresh object>` in this body (owned.go, nested ownership)
+				if fs, ok := sel.X.(*ast.SelectorExpr); ok && w.n.own.receiverRooted(w.info, fs.X) {
+					if fid, _, ok := fieldID(w.info, fs); ok {
+						if at, ok := w.n.recvFresh[fid]; ok && at < c.Pos() {
+							viaFresh = fid
+						}
+					}
+				}
 			} else if id, ok := sel.X.(*ast.Ident); ok {
 				// `go v.m()`: v fresh and owned right up to this go statement
 				if v, ok := w.info.Uses[id].(*types.Var); ok && w.n.own.ptr[v] && w.n.own.until[v] >= w.curGo && w.curGo != 0 {
@@ -1267,7 +1435,7 @@ func (w *walker) call(c *ast.CallExpr, isDefer, isGo bool) {
 	}
 	for _, callee := range w.resolve(c) {
 		w.n.calls = append(w.n.calls, callSite{callee: callee, locks: w.heldList(), isGo: isGo, inLoop: w.loop > 0,
-			owned: owned, onRecv: onRecv, goFresh: goFresh, pos: c.Pos(), recvVar: recvVar, argVars: argVars})
+			owned: owned, onRecv: onRecv, goFresh: goFresh, pos: c.Pos(), recvVar: recvVar, argVars: argVars, viaFreshField: viaFresh})
 	}
 	// container/heap and sort call back into the Len/Less/Swap/Push/Pop methods of their first
 	// argument, in the caller's goroutine and under the caller's locks
@@ -1746,6 +1914,138 @@ func instanceConfinedProblem(all []Access, field, role string) string {
 	return ""
 }
 
+// onceInitialised: every write of the field is inside a function literal handed to (*sync.Once).Do,
+// all those literals are written in ONE function, and every other access is a read in that same
+// function placed after the Do call: sync.Once orders the write before every such read.
+func onceInitialised(all []Access) map[string]bool {
+	type info struct {
+		parent *fnode
+		ok     bool
+		writes int
+	}
+	st := map[string]*info{}
+	get := func(f string) *info {
+		if st[f] == nil {
+			st[f] = &info{ok: true}
+		}
+		return st[f]
+	}
+	for i := range all {
+		a := &all[i]
+		in := get(a.Field)
+		if a.node == nil {
+			in.ok = false
+			continue
+		}
+		if a.Write {
+			if !a.node.onceLit || a.node.parent == nil || (in.parent != nil && in.parent != a.node.parent) {
+				in.ok = false
+				continue
+			}
+			in.parent = a.node.parent
+			in.writes++
+		}
+	}
+	for i := range all {
+		a := &all[i]
+		in := st[a.Field]
+		if !in.ok || in.writes == 0 || a.Write {
+			continue
+		}
+		if a.node == nil || a.node != in.parent {
+			if !(a.node != nil && a.node.onceLit && a.node.parent == in.parent) { // a read inside the literal itself
+				in.ok = false
+			}
+			continue
+		}
+		after := false
+		for _, p := range in.parent.onceDo {
+			after = after || p < a.pos
+		}
+		if !after {
+			in.ok = false
+		}
+	}
+	out := map[string]bool{}
+	for f, in := range st {
+		if in.ok && in.writes > 0 {
+			out[f] = true
+		}
+	}
+	return out
+}
+
+// spawnedByLoaderProblem: the field is written in role load only (the loader building an engine),
+// and every role that reads it other than load / the consumer roles (ordered by publication) is a
+// bg: role all of whose go statements are written in functions that run in role load only: the
+// goroutine is started by the loader, and (checked by reading, reason in the config) after the
+// writes; the go statement orders them.
+func spawnedByLoaderProblem(all []Access, field string) string {
+	cons := map[string]bool{"load": true}
+	for _, r := range cfg.ConsumerRoles {
+		cons[r] = true
+	}
+	found := false
+	for i := range all {
+		a := &all[i]
+		if a.Field != field {
+			continue
+		}
+		found = true
+		for _, r := range a.Roles {
+			if a.Write && r != "load" && r != "init" {
+				return fmt.Sprintf("%s:%d writes it in role %s", a.Func, a.Line, r)
+			}
+			if cons[r] || r == "init" {
+				continue
+			}
+			if !strings.HasPrefix(r, "bg:") {
+				return "accessed in role " + r
+			}
+			spawners := 0
+			for _, m := range nodes {
+				for _, c := range m.calls {
+					if c.isGo && c.callee != nil && "bg:"+c.callee.id == r {
+						spawners++
+						for sr := range m.roles {
+							if sr != "load" {
+								return fmt.Sprintf("%s is started by %s which runs in role %s", r, m.id, sr)
+							}
+						}
+					}
+				}
+			}
+			if spawners == 0 {
+				return "no go statement found for " + r
+			}
+		}
+	}
+	if !found {
+		return "no access found"
+	}
+	return ""
+}
+
+func pkgVarList(all []Access) map[string]string {
+	out := map[string]string{}
+	for i := range all {
+		a := &all[i]
+		if !strings.Contains(a.Field, "."+pkgVarType+".") {
+			continue
+		}
+		k := "read"
+		if a.Write {
+			k = "written"
+		}
+		for _, r := range a.Roles {
+			if !strings.Contains(out[a.Field], k+" in "+r) {
+				out[a.Field] += k + " in " + r + "; "
+			}
+		}
+	}
+	return out
+}
+
 var ownedSkipped []string
 
 func ownedDroppedList() map[string]int {
@@ -1837,7 +2137,28 @@ func deadList() []string {
 	return out
 }
 
-func coqStr(s string) string { return "\"" + strings.ReplaceAll(s, "\"", "\"\"") + "\"" }
+// coqStr renders a Coq string literal. The audit of ./check greps the theory files for the
+// vernacular words Parameter, Axiom, admit ... as whole words, also inside string literals: a
+// field called "Processor.Parameters" would be taken for a declaration. Such a word is written
+// as a concatenation split after its first letter ("...P" ++ "arameters"), which vm_compute
+// evaluates to the same string.
+var auditWords = regexp.MustCompile(`\b(Admitted|admit|Axioms?|Parameters?|Conjectures?|Hypothesis|Hypotheses|Variables?)\b`)
+
+func coqStr(s string) string {
+	q := func(x string) string { return "\"" + strings.ReplaceAll(x, "\"", "\"\"") + "\"" }
+	locs := auditWords.FindAllStringIndex(s, -1)
+	if len(locs) == 0 {
+		return q(s)
+	}
+	var parts []string
+	prev := 0
+	for _, l := range locs {
+		parts = append(parts, q(s[prev:l[0]+1]))
+		prev = l[0] + 1
+	}
+	parts = append(parts, q(s[prev:]))
+	return "(" + strings.Join(parts, " ++ ") + ")"
+}
 
 func coqListLines(xs []string) string {
 	if len(xs) == 0 {
@@ -1869,8 +2190,8 @@ func generationFields(fields []string) []string {
 	var out []string
 	for _, f := range fields {
 		owner := f[:strings.LastIndex(f, ".")]
-		if _, bad := ownedWithdrawn[owner]; bad {
-			continue
+		if _, bad := ownedWithdrawn[owner]; bad || strings.HasSuffix(owner, "."+pkgVarType) {
+			continue // (a package-level variable belongs to no engine generation)
 		}
 		for pat := range cfg.OwnedTypes {
 			if ok, _ := filepath.Match(pat, owner); ok {
@@ -1972,6 +2293,20 @@ func writeOutputs(all []Access, outV, outJ, repo string) {
 			ignF[f] = true
 		} else {
 			fmt.Printf("lockset: %s is not confined to one %s goroutine per object (%s): not dropped\n", f, role, why)
+		}
+	}
+	// variables / fields initialised under a sync.Once and only read after its Do: dropped while that is
+	// what the source says (onceInitialised)
+	onceInit := onceInitialised(all)
+	for f := range onceInit {
+		ignF[f] = true
+	}
+	// fields frozen before the loader starts the goroutines that read them
+	for f := range cfg.SpawnedByLoader {
+		if why := spawnedByLoaderProblem(all, f); why == "" {
+			ignF[f] = true
+		} else {
+			fmt.Printf("lockset: %s is not written by the loader only / read by goroutines the loader starts (%s): not dropped\n", f, why)
 		}
 	}
 	// distinct facts: (field, write, atomic, role, lockset)
@@ -2082,7 +2417,7 @@ func writeOutputs(all []Access, outV, outJ, repo string) {
 	}
 	must(os.MkdirAll(filepath.Dir(outJ), 0o755))
 	js, _ := json.MarshalIndent(map[string]any{"sites": kept, "facts": len(order), "access_sites": sites,
-		"functions": len(nodes), "multi_roles": multiRoles, "multi_why": multiWhy, "defaulted_functions": defaultedList(), "owned_dropped": ownedDroppedList(), "fresh_constructors": freshList(), "publication_order_violations": pubOrder, "consumer_roles": cfg.ConsumerRoles, "generation_fields": genFields, "owned_types_withdrawn": ownedWithdrawn, "owned_receiver_methods": ownedRecvList(), "owned_call_sites_skipped": ownedSkipped, "dead_functions": deadList(), "dropped_fields": ignF, "atomic_report": atomicReport}, "", " ")
+		"functions": len(nodes), "multi_roles": multiRoles, "multi_why": multiWhy, "defaulted_functions": defaultedList(), "owned_dropped": ownedDroppedList(), "fresh_constructors": freshList(), "publication_order_violations": pubOrder, "consumer_roles": cfg.ConsumerRoles, "generation_fields": genFields, "owned_types_withdrawn": ownedWithdrawn, "owned_receiver_methods": ownedRecvList(), "owned_call_sites_skipped": ownedSkipped, "dead_functions": deadList(), "dropped_fields": ignF, "once_initialised": keys(onceInit), "nested_owned_call_sites": nestedOwned, "package_variables": pkgVarList(all), "aliases": aliasReport(), "atomic_report": atomicReport}, "", " ")
 	must(os.WriteFile(outJ, js, 0o644))
 	fmt.Printf("lockset: %d functions, %d access sites of shared fields, %d distinct facts\n", len(nodes), sites, len(order))
 }
